@@ -26,6 +26,22 @@
 (L)  the letter of "no operation fails for lack of space": MC_KV_bigbatch / MC_KV_squeeze violate NoMapFull (no assumption on
      callers); each counterexample is run on the real Store by one deterministic scenario (h_kv bigbatch / squeeze).
 (P)  probe: is the head-room checked in Store::batch() still there once the write lock is held?
+(C)  chain/src/store.rs: the behaviours of (A) that nest or commit, replayed on a real grin_chain::ChainStore through its typed
+     accessors (save/get block sums, spent index, output_pos index, output_pos_iter; ChainStore::batch / Batch::child / commit);
+     every batch-scoped getter and every ChainStore getter after every action.
+(S)  production-mode sizing (KV!NeedsResize `mapSize < Chunk`, MC_KV_prodchunk): h_kv prodsize - Mainnet chain type, 128 MiB chunk,
+     the first batch() must enlarge LMDB's initial map to one chunk; 3 MiB then go in in 64 KiB batches.
+(X)  h_kv crashresize: the process is killed while an enlargement is pending (writer parked at the gate), right after it, and
+     after the first commit on the new map; restarted on its files: every returned commit is there, the next rewrites fit.
+(K)  iterator key paging (KV!OutIterNext page-shaped: KeyPage / skip_cur / skip_total, PageWalk, IterInOrder; careless variant
+     MC_KV_pageskip): h_kv pages - 30 011 keys, store iterators (through a SECOND Store handle on the environment) walked across
+     every 10 000-key page boundary while another thread commits deletes / inserts in every page, at and between the
+     boundaries; Batch::iter over the uncommitted writes of a batch and of its child; the expected list is the snapshot.
+(W)  rewrite under a pinned reader (KV!NeedsResize measures by the LAST PAGE; careless variant MC_KV_livesized must violate
+     NoMapFull): h_kv rewrite - 640 KiB of values rewritten 48 KiB at a time while another thread's iterator (second handle,
+     dropped and reopened mid-run) pins the snapshot: the file grows although the live data does not; when the last page says
+     an enlargement is due, batch() of a thread that holds nothing must park and come back on the enlarged map, and no batch
+     may fail with MDB_MAP_FULL. An enlargement that is due and not carried out is a VERDICT (also in (N)), not vacuity.
 """
 import json, os, re, shutil, time
 import vlib
@@ -42,7 +58,10 @@ CARELESS = [("MC_KV_gateorder", "NoMapFull"),            # write_txn() before en
             ("MC_KV_nestedmark", "NoHolderParked"),      # a nested close wipes the thread's mark
             ("MC_KV_nestedmark_dl", "deadlock"),         # ... and then nothing ever moves again
             ("MC_KV_readcount", "NoRemapUnderTxn"),      # a plain read is not counted while it is in flight
-            ("MC_KV_reopenclamp", "prop:HeadroomKept")]  # a restart clamps the map to the size of the data
+            ("MC_KV_reopenclamp", "prop:HeadroomKept"),  # a restart clamps the map to the size of the data
+            ("MC_KV_pageskip", "PageWalk"),              # load_next_keys() skips skip_cur instead of skip_total keys
+            ("MC_KV_pagesnap", "prop:IterInOrder"),      # a fresh read transaction (snapshot) for every further page of keys
+            ("MC_KV_livesized", "NoMapFull")]            # env_size() from the live pages instead of the last page number
 # the letter of the property ("no operation fails for lack of space", no assumption on callers): the code's policy - enlarge only
 # between batches, never under the caller's own transaction - cannot hold NoMapFull. TLC must find the violation; its
 # counterexample is then run on the real Store (a verdict only if reproduced there)
@@ -54,6 +73,7 @@ INFLIGHT_SIG = "kv:resize:inflight_read_not_counted"
 INFLIGHT_CRASH_SIG = "kv:resize:under_inflight_read:crash"
 RACE_SIG = "kv:resize:stale_check:second_writer:mapfull"
 GATE_SIG = "kv:resize:deferred:waiting_batch:mapfull"
+DUE_SIG = "kv:resize:due_not_enlarged"          # + :<scenario>:<detail>
 # key-space size of the recorded runs; must equal NK in the trace configuration used
 TRACE_CFG = {60: "trace/KVTrace", 100: "trace/KVTrace_thorough"}
 T_ACTIONS = ["TBegin", "TPut", "TDel", "TGet", "TExists", "TIter", "TChild", "TCommitChild", "TDropChild", "TDrop",
@@ -77,11 +97,13 @@ def model_check(cfgs):
     from concurrent.futures import ThreadPoolExecutor
     jobs = [(c, "hold") for c in cfgs] + [("MC_KV_live", "live")] + CARELESS + LETTER
 
-    BIG = ("MC_KV", "MC_KV_thorough", "MC_KV_wide", "MC_KV_reads")
+    BIG = ("MC_KV", "MC_KV_thorough", "MC_KV_wide", "MC_KV_reads", "MC_KV_full", "MC_KV_resize_full", "MC_KV_resize", "MC_KV_prodchunk")
+
+    NOCOV = ("MC_KV", "MC_KV_thorough", "MC_KV_wide", "MC_KV_full")
 
     def lane(mine):
         # the large data configurations run without -coverage (their actions are all taken in the smaller ones, which are counted)
-        return [((cfg, kind), vlib.tlc("mc/MC_KV", "mc/" + cfg, workers=3 if cfg in BIG else 1, coverage=(kind == "hold" and cfg not in BIG[:3]),
+        return [((cfg, kind), vlib.tlc("mc/MC_KV", "mc/" + cfg, workers=3 if cfg in BIG else 1, coverage=(kind == "hold" and cfg not in NOCOV),
                                        timeout=1500, deadlock=(kind in ("live", "deadlock")))) for cfg, kind in mine]
     with ThreadPoolExecutor(max_workers=2) as ex:
         a = ex.submit(lane, [j for j in jobs if j[0] in BIG])
@@ -116,7 +138,7 @@ def model_check(cfgs):
                 print(r.out[-3000:])
                 raise ToolError("%s: the variant does not violate %s (vacuous model)" % (cfg, kind))
             per[cfg] = {"expected_violation": kind, "states": r.distinct, "wall_s": round(r.wall, 1)}
-            if (cfg, kind) in LETTER:
+            if (cfg, kind) in LETTER or cfg == "MC_KV_livesized":
                 # the counterexample, as action labels (what the directed scenario then does to the real Store)
                 per[cfg]["counterexample"] = [re.sub(r"\s+", " ", a) for a in re.findall(r"/\\ act = (\[.*?\])\n", r.out)][1:]
     never = [a for a in MC_ACTIONS if counts.get(a, 0) == 0]
@@ -204,6 +226,49 @@ def replay_behaviours(rep, wd, behs, tag="cases"):
         for key, v in a.items():
             actions[key] = actions.get(key, 0) + v
     return checks, actions
+
+
+def chain_sig(beh, mm):
+    st = mm.get("step", 0)
+    act = beh[st]["a"]["k"] if isinstance(st, int) and st < len(beh) else "?"
+    d = beh[st]["d"] if isinstance(st, int) and st < len(beh) else 0
+    return "kv:chainstore:%s:after=%s:depth=%s" % (mm.get("op", "?"), act, d)
+
+
+def replay_chainstore(rep, wd, behs, tag="chaincases"):
+    """(C) the same behaviours on a real grin_chain::ChainStore through its typed accessors (chain/src/store.rs): block sums / spent
+    index and the output_pos index; every batch-scoped getter and iterator after every action. Returns (checks, actions, n)."""
+    cp = os.path.join(wd, tag + ".ndjson")
+    vlib.write_ndjson(cp, behs)
+    outp = os.path.join(wd, tag + "_out.ndjson")
+    for f in (outp, outp + ".hang"):
+        if os.path.exists(f):
+            os.remove(f)
+    p = vlib.harness(["kv", "chainreplay", "--cases", cp, "--out", outp, "--dir", os.path.join(wd, "stores_" + tag), "--nk", 3],
+                     check=False, timeout=900)
+    if os.path.exists(outp + ".hang"):
+        h = json.load(open(outp + ".hang"))
+        b = behs[h["behaviour"]]
+        rep.violation("kv:chainstore:hang:in=%s" % b[min(h["after_step"] + 1, len(b) - 1)]["a"]["k"], {"kind": "chain_behaviour", "behaviour": b, "hang": h},
+                      "a ChainStore call never returned (>20 s) around step %d of %s" % (h["after_step"], [s["a"]["k"] for s in b]))
+        return 0, {}, 0
+    if p.returncode < 0:
+        done = len(vlib.read_ndjson(outp)) if os.path.exists(outp) else 0
+        rep.violation("kv:chainstore:crash:signal=%d" % -p.returncode, {"kind": "chain_behaviour", "behaviour": behs[min(done, len(behs) - 1)]},
+                      "harness killed by signal %d while replaying behaviour %d on a ChainStore" % (-p.returncode, done))
+        return 0, {}, 0
+    if p.returncode != 0:
+        print(p.stdout[-2000:], p.stderr[-2000:])
+        raise ToolError("kv chainreplay failed")
+    info = json.loads(p.stdout.strip().splitlines()[-1])
+    res = vlib.read_ndjson(outp)
+    n = 0
+    for b, r in zip(behs, res):
+        for mm in r["mismatches"][:1]:
+            if n < 3:
+                rep.violation(chain_sig(b, mm), {"kind": "chain_behaviour", "behaviour": b, "spent_index": r.get("spent_index"), "mismatch": mm}, json.dumps(mm)[:600])
+            n += 1
+    return info["checks"], info["actions"], len(behs)
 
 
 def validate_trace(path, what, nk=60):
@@ -451,6 +516,13 @@ def run_gate(rep, wd):
     elif not res.get("reached"):
         if cls == "fill_error" and "MAP_FULL" in str(res.get("error")):
             rep.violation("kv:resize:fill:mapfull", case, "small batches (4 KiB) ran out of space while filling: %s" % json.dumps(res))
+        elif cls == "fill_error" and str(res.get("error", "")).startswith("panic:"):
+            rep.violation("kv:handles:writer_panic:second_handle_%s" % ("reopened" if res.get("iterations", 0) >= 16 else "open"), case,
+                          "a 4 KiB batch through the first Store handle panicked while a reader works through a second handle on the same "
+                          "environment (round %s; the second handle is dropped and opened again every 16th round): %s" % (res.get("iterations"), json.dumps(res)))
+        elif cls in ("second_handle_error", "iter_error"):
+            rep.violation("kv:handles:%s" % cls, case, "a second Store handle on the open environment (as PeerStore next to ChainStore) could not be "
+                          "opened / read through: %s" % json.dumps(res))
         else:
             raise ToolError("kv gate: the deferred-resize point was never reached: %s" % json.dumps(res))
     elif cls == "mapfull":
@@ -515,6 +587,13 @@ def run_nested(rep, wd, seed):
     elif cls in ("mapfull", "error", "panic"):
         rep.violation("kv:nested:%s:%s:when=%s" % (cls, res.get("op"), res.get("kind")), case,
                       "nested-transactions scenario: operation failed: %s" % json.dumps(res))
+    elif cls == "due_not_enlarged":
+        d = res.get("not_enlarged") or {}
+        rep.violation("%s:nested:asked_by=%s" % (DUE_SIG, d.get("kind")), case,
+                      "KV!NeedsResize (used > 90 %% of the map, measured by the LAST PAGE of the data file as LMDB measures when it "
+                      "allocates) said an enlargement was due (%s data pages, map %s bytes) and a batch() was opened (%s): nothing was "
+                      "pending afterwards and with every transaction closed the map is still %s bytes - the enlargement was never asked "
+                      "for: %s" % (d.get("data_pages"), d.get("map_before"), d.get("kind"), d.get("map_after"), json.dumps(res)[:600]))
     elif cls != "ok":
         raise ToolError("kv nested: scenario not exercised: %s" % json.dumps(res))
     return res, (tp if cls == "ok" else None)
@@ -565,6 +644,148 @@ def run_inflight(rep, wd):
     return res, (tp if cls == "ok" else None)
 
 
+def run_rewrite(rep, wd, cex):
+    """(W) KV counterexample of MC_KV_livesized (batches that REWRITE the same cells until a Put finds no room) on the real Store,
+    under the condition that makes the model's accounting exact (a reader of another thread pins the old snapshot, so freed pages
+    are not reusable): it must NOT reproduce - the enlargement is due by the last page, the writer parks, the map grows."""
+    kinds = cex_kinds(cex)
+    if kinds.count("Commit") < 1 or kinds[-1] != "Put" or "Resize" in kinds:
+        raise ToolError("MC_KV_livesized: unexpected counterexample shape %s" % kinds)
+    res = None
+    for attempt in (1, 2):
+        d = os.path.join(wd, "rewrite")
+        p = vlib.harness(["kv", "rewrite", "--dir", d], timeout=300, check=False)
+        shutil.rmtree(d, ignore_errors=True)
+        res = last_json(p)
+        case = {"kind": "rewrite", "model_counterexample": cex, "result": res}
+        if p.returncode < 0:
+            rep.violation("kv:rewrite:crash:signal=%d" % -p.returncode, case, "rewrite-under-a-pinned-reader scenario: process killed by signal %d" % -p.returncode)
+            return {"class": "crash"}
+        if res is None or p.returncode != 0:
+            print(p.stdout[-1500:], p.stderr[-1500:])
+            raise ToolError("kv rewrite gave no result")
+        if res.get("class") != "hang" or attempt == 2:
+            break
+        log("kv rewrite: a store call did not return within %s s (%s); re-confirming once" % (res.get("bound_s"), res.get("phase")))
+    res["attempts"] = attempt
+    cls = res.get("class")
+    if cls == "due_not_enlarged":
+        rep.violation("%s:rewrite_under_pinned_reader%s" % (DUE_SIG, ":batch_mapfull" if "MAP_FULL" in str(res.get("batch_result")) else ""), case,
+                      "data rewritten while another thread's iterator pins an old snapshot (freed pages not reusable: %s bytes of live "
+                      "values, data file %s pages): KV!NeedsResize - used > 90 %% of the map measured by the LAST PAGE, as LMDB measures "
+                      "when it allocates (%.3f of %s bytes) - said an enlargement was due, but batch() of a thread that holds no "
+                      "transaction came back at once on the old map (KV!ResizeGate: such a batch parks until the map has been enlarged)"
+                      "; the batch then: %s" % (res.get("live_value_bytes"), res.get("pages"), res.get("used_fraction_by_last_page") or 0.0,
+                                               res.get("map_bytes"), res.get("batch_result") or "ok"))
+    elif cls == "mapfull":
+        rep.violation("kv:rewrite:pinned_reader:small_batch:mapfull", case,
+                      "a %s-byte batch (< 10 %% of the map) that rewrites values while another thread's iterator pins an old snapshot ran "
+                      "out of space (data file %s pages, map %s bytes, enlargement due by last page when it was opened: %s): %s"
+                      % (res.get("batch_value_bytes"), res.get("pages"), res.get("map_bytes"), res.get("due_by_last_page_at_batch"), res.get("error")))
+    elif cls == "remapped":
+        rep.violation("kv:rewrite:remapped_under_pinned_reader", case,
+                      "the memory map of the data file was replaced (%s -> %s bytes) while another thread's iterator (second Store handle) "
+                      "was open: %s" % (res.get("map_before"), res.get("map_after"), json.dumps(res)))
+    elif cls == "snapshot_changed":
+        rep.violation("kv:rewrite:pinned_iterator:snapshot_changed", case, "the pinned iterator handed out something else than the snapshot it was opened on: %s" % json.dumps(res)[:600])
+    elif cls == "hang":
+        rep.violation("kv:rewrite:hang:%s" % res.get("phase"), case, "rewrite-under-a-pinned-reader scenario: a store call did not return (%s s, twice): %s" % (res.get("bound_s"), json.dumps(res)))
+    elif cls in ("error", "lost", "panic"):
+        rep.violation("kv:rewrite:%s:%s" % (cls, res.get("op")), case, "rewrite-under-a-pinned-reader scenario failed: %s" % json.dumps(res)[:600])
+    elif cls != "ok":
+        raise ToolError("kv rewrite: scenario not exercised: %s" % json.dumps(res))
+    return res
+
+
+def run_prodsize(rep, wd):
+    """(S) production-mode sizing: 128 MiB chunk, LMDB's initial map is smaller (KV!NeedsResize `mapSize < Chunk`, MC_KV_prodchunk)."""
+    d = os.path.join(wd, "prodsize")
+    p = vlib.harness(["kv", "prodsize", "--dir", d], timeout=300, check=False)
+    shutil.rmtree(d, ignore_errors=True)
+    res = last_json(p)
+    case = {"kind": "prodsize", "result": res}
+    if p.returncode < 0:
+        rep.violation("kv:resize:production_chunk:crash:signal=%d" % -p.returncode, case, "production-mode sizing scenario: process killed by signal %d" % -p.returncode)
+        return {"class": "crash"}
+    if res is None or p.returncode != 0:
+        print(p.stdout[-1500:], p.stderr[-1500:])
+        raise ToolError("kv prodsize gave no result")
+    cls = res.get("class")
+    if cls == "due_not_enlarged":
+        rep.violation("%s:production_chunk:first_batch" % DUE_SIG, case,
+                      "a fresh environment in production mode (allocation chunk %s bytes) starts with a map of %s bytes: KV!NeedsResize "
+                      "(`mapSize < Chunk`) says the first batch() has to enlarge it to one chunk - it came back on a map of %s bytes"
+                      % (res.get("chunk"), res.get("map_initial"), res.get("map_bytes")))
+    elif cls == "mapfull":
+        rep.violation("kv:resize:production_chunk:small_batch:mapfull", case,
+                      "production mode (chunk %s bytes): 64 KiB batch no. %s ran out of space on a map of %s bytes (%s data pages; the "
+                      "environment started with %s bytes): %s" % (res.get("chunk"), res.get("batch"), res.get("map_bytes"), res.get("pages"),
+                                                                 res.get("map_initial"), res.get("error")))
+    elif cls in ("error", "lost", "panic"):
+        rep.violation("kv:resize:production_chunk:%s:%s" % (cls, res.get("op")), case, "production-mode sizing scenario failed: %s" % json.dumps(res)[:600])
+    elif cls != "ok":
+        raise ToolError("kv prodsize: scenario not exercised: %s" % json.dumps(res))
+    return res
+
+
+def run_crashresize(rep, wd):
+    """(X) process death around a map enlargement: while it is pending (writer parked at the gate), right after it (nothing
+    committed on the new map yet), after the first commit on the new map; restart on the files (KV!Crash, CrashDurable, NoMapFull)."""
+    d = os.path.join(wd, "crashresize")
+    p = vlib.harness(["kv", "crashresize", "--dir", d], timeout=600, check=False)
+    shutil.rmtree(d, ignore_errors=True)
+    res = last_json(p)
+    case = {"kind": "crashresize", "result": res}
+    if p.returncode < 0:
+        rep.violation("kv:crash:resize:restart_crash:signal=%d" % -p.returncode, case, "restart after a kill around a map enlargement: process killed by signal %d" % -p.returncode)
+        return {"class": "crash"}
+    if res is None or p.returncode != 0:
+        print(p.stdout[-1500:], p.stderr[-1500:])
+        raise ToolError("kv crashresize gave no result")
+    cls = res.get("class")
+    if cls in ("lost", "mapfull", "error", "hang", "panic"):
+        rep.violation("kv:crash:resize:%s:%s:%s" % (res.get("mode"), cls, res.get("op")), case,
+                      "process killed %s a map enlargement, restarted on its files: %s"
+                      % ({"pending": "while the writer was parked at the gate for", "resized": "right after", "committed": "after the first commit following"}.get(res.get("mode"), "around"),
+                         json.dumps(res)[:700]))
+    elif cls != "ok" or len(res.get("runs", [])) < 3:
+        raise ToolError("kv crashresize: scenario not exercised: %s" % json.dumps(res))
+    return res
+
+
+def run_pages(rep, wd, seed):
+    """(K) iterators across the 10 000-key page boundaries (KV!OutIterNext / PageWalk / IterInOrder, SnapStable)."""
+    d = os.path.join(wd, "pages")
+    p = vlib.harness(["kv", "pages", "--dir", d, "--seed", seed], timeout=400, check=False)
+    shutil.rmtree(d, ignore_errors=True)
+    res = last_json(p)
+    case = {"kind": "pages", "seed": seed, "result": res}
+    if p.returncode < 0:
+        rep.violation("kv:iter:paging:crash:signal=%d" % -p.returncode, case, "iterator paging scenario: process killed by signal %d" % -p.returncode)
+        return {"class": "crash"}
+    if res is None or p.returncode != 0:
+        print(p.stdout[-1500:], p.stderr[-1500:])
+        raise ToolError("kv pages gave no result")
+    cls = res.get("class")
+    if cls == "mismatch":
+        m = res["problems"][0]
+        rep.violation("kv:iter:paging:%s:%s:page=%s" % (m.get("where"), m.get("kind"), m.get("page")), case,
+                      "an iterator over %s keys (pages of 10 000 keys) did not hand out its snapshot: %s at item %s (page %s): got %s, "
+                      "expected %s; %s items handed out, %s in the snapshot (walk %s)"
+                      % (res.get("keys"), m.get("kind"), m.get("index"), m.get("page"), m.get("got"), m.get("expected"), m.get("got_len"),
+                         m.get("expected_len"), m.get("walk", "-")))
+    elif cls == "hang":
+        rep.violation("kv:iter:paging:hang", case, "iterator paging scenario: no result within %s s: %s" % (res.get("bound_s"), json.dumps(res)))
+    elif cls in ("error", "panic", "mapfull"):
+        if str(res.get("op", "")).endswith("_hang") or res.get("op") == "harness":
+            # the writer parked at the resize gate behind the scenario's own iterator: the room made beforehand was not enough
+            raise ToolError("kv pages: the scenario could not be set up: %s" % json.dumps(res))
+        rep.violation("kv:iter:paging:%s:%s" % (cls, res.get("op")), case, "iterator paging scenario failed: %s" % json.dumps(res)[:600])
+    elif cls != "ok":
+        raise ToolError("kv pages: scenario not exercised: %s" % json.dumps(res)[:1500])
+    return res
+
+
 def validate_scenarios(rep, wd, traces):
     """The recorded directed scenarios, one Reset-separated trace, against KVTrace.tla (NK = 100)."""
     evs = []
@@ -596,6 +817,18 @@ def selftest(rep, wd, behs, trace_path, nk, scen_path=None):
             os.remove(path)
     if not probe.violations:
         raise ToolError("selftest: a corrupted expectation was not noticed by the replay")
+    probe = Report(PID, "selftest", "model_checking")
+    probe.known = []
+    # (the output_pos space is compared inside and outside under both mappings of key space 1)
+    bc = json.loads(json.dumps(next(x for x in behs if any(s["a"]["k"] == "Commit" and s["out"][1] for s in x))))
+    i = next(i for i, s in enumerate(bc) if s["a"]["k"] == "Commit" and s["out"][1])
+    bc[i]["out"][1][0][1] = 3 - bc[i]["out"][1][0][1]
+    replay_chainstore(probe, wd, [bc, bc], tag="selftest_chain")
+    for _, path, _ in probe.violations:
+        if path and os.path.exists(path):
+            os.remove(path)
+    if len(probe.violations) < 2:
+        raise ToolError("selftest: a corrupted expectation was not noticed by the ChainStore replay (both key-space mappings)")
     # corrupted recorded fields: each must be rejected at exactly its event (three trace validations side by side)
     jobs = []
     evs = vlib.read_ndjson(trace_path)
@@ -640,6 +873,9 @@ def do_replay(rep, wd, obj):
     kind = case.get("kind")
     if kind == "behaviour":
         replay_behaviours(rep, wd, [case["behaviour"]], tag="replay")
+    elif kind == "chain_behaviour":
+        # position in the file selects the mapping of key space 1 (even: block sums, odd: spent index)
+        replay_chainstore(rep, wd, [case["behaviour"]] * 2 if case.get("spent_index") else [case["behaviour"]], tag="replay_chain")
     elif kind == "trace":
         ok, why, _ = validate_trace(case["trace"], "replay", case.get("nk", 60))
         if not ok:
@@ -666,6 +902,14 @@ def do_replay(rep, wd, obj):
         run_squeeze(rep, wd, case["model_counterexample"])
     elif kind == "bigbatch":
         run_bigbatch(rep, wd, case["model_counterexample"])
+    elif kind == "rewrite":
+        run_rewrite(rep, wd, case["model_counterexample"])
+    elif kind == "pages":
+        run_pages(rep, wd, case.get("seed", 1))
+    elif kind == "prodsize":
+        run_prodsize(rep, wd)
+    elif kind == "crashresize":
+        run_crashresize(rep, wd)
     else:
         raise ToolError("unknown replay kind %r" % kind)
     rep.coverage = {"states": 1, "transitions": 1, "traces_validated_against_impl": 1, "samples": [obj["signature"]]}
@@ -687,9 +931,12 @@ def run(tier, replay):
         t_ph[0] = time.time()
 
     # (M) the specification itself
-    cfgs = ["MC_KV", "MC_KV_reads", "MC_KV_resize", "MC_KV_inflight", "MC_KV_threads"]
+    # quick: the three largest exhaustive configurations run with a horizon that is one to three actions shorter (MC_KV: MaxOps 6;
+    # MC_KV_resize: UsedInit 8 / MaxOps 19; MC_KV_inflight: MaxOps 7); the full horizons (MC_KV_full, MC_KV_resize_full,
+    # MC_KV_inflight_full) are checked in the thorough tier. Every action and every invariant / property is exercised in both.
+    cfgs = ["MC_KV", "MC_KV_reads", "MC_KV_resize", "MC_KV_inflight", "MC_KV_threads", "MC_KV_prodchunk"]
     if thorough:
-        cfgs = ["MC_KV_thorough", "MC_KV_wide", "MC_KV_reads", "MC_KV_resize", "MC_KV_inflight", "MC_KV_threads"]
+        cfgs = ["MC_KV_thorough", "MC_KV_wide", "MC_KV_full", "MC_KV_reads", "MC_KV_resize_full", "MC_KV_inflight_full", "MC_KV_threads", "MC_KV_prodchunk"]
     states, trans, mc_counts, per_cfg = model_check(cfgs)
     phase("model_check")
 
@@ -708,6 +955,19 @@ def run(tier, replay):
     if missing:
         raise ToolError("replayed behaviours never contain %s" % missing)
     deep = sum(1 for b in behs if max(s["d"] for s in b) >= 3)
+
+    # (C) chain/src/store.rs: the behaviours with nesting or a commit (at most 700 / 4000, the deepest first) on a real ChainStore
+    cb = sorted((b for b in behs if any(s["a"]["k"] in ("Child", "Commit") for s in b)), key=lambda b: -max(s["d"] for s in b))
+    cb = cb[:4000 if thorough else 700]
+    chain_checks, chain_actions, chain_n = replay_chainstore(rep, wd, cb)
+    phase("chainstore")
+    if rep.violations:
+        rep.coverage = {"states": states, "transitions": trans, "traces_validated_against_impl": len(behs) + chain_n,
+                        "samples": [{"behaviour": [s["a"]["k"] for s in cb[0]]}], "stopped_after": "chainstore replay"}
+        return rep.finish()
+    cmissing = [a for a in ("Begin", "Put", "Del", "Child", "CommitChild", "DropChild", "Commit", "Drop", "Crash") if chain_actions.get(a, 0) == 0]
+    if cmissing:
+        raise ToolError("behaviours replayed on the ChainStore never contain %s" % cmissing)
 
     # (G) deferred enlargement: the waiting batch must find the enlarged map (directed, ~1 s; before the random
     # threaded runs so that a failure gets its own narrow signature)
@@ -729,13 +989,18 @@ def run(tier, replay):
         scen_traces.append(("nested", ntrace2))
     inflight, ftrace = (None, None) if rep.violations else run_inflight(rep, wd)
     reopen = None if rep.violations else run_reopen(rep, wd)
+    # (W) rewrite under a pinned reader, (K) iterator paging (directed, ~2 s and ~1 s)
+    rewrite = None if rep.violations else run_rewrite(rep, wd, per_cfg["MC_KV_livesized"]["counterexample"])
+    pages = None if rep.violations else run_pages(rep, wd, seed)
+    prodsize = None if rep.violations else run_prodsize(rep, wd)
     scen_path, scen_events = (None, 0)
     if not rep.violations:
         scen_path, scen_events = validate_scenarios(rep, wd, scen_traces + [("inflight", ftrace)])
     if rep.violations:
         rep.coverage = {"states": states, "transitions": trans, "traces_validated_against_impl": len(behs),
-                        "samples": [{"nested_scenario": nested, "inflight_scenario": inflight, "reopen_scenario": reopen}],
-                        "stopped_after": "nested/inflight/reopen"}
+                        "samples": [{"nested_scenario": nested, "inflight_scenario": inflight, "reopen_scenario": reopen,
+                                     "rewrite_scenario": rewrite, "pages_scenario": pages, "production_sizing_scenario": prodsize}],
+                        "stopped_after": "nested/inflight/reopen/rewrite/pages"}
         return rep.finish()
 
     phase("scenarios")
@@ -761,6 +1026,7 @@ def run(tier, replay):
     phase("record")
     # (B2) process death around commit()
     crash = run_crash(rep, wd, seed, 24 if thorough else 8)
+    crashresize = None if rep.violations else run_crashresize(rep, wd)
     phase("crash")
 
     st = selftest(rep, wd, behs, recs[0]["trace"], recs[0]["nk"], scen_path) if recs and not rep.violations else None
@@ -781,7 +1047,7 @@ def run(tier, replay):
     sample_b = next((b for b in behs if max(s["d"] for s in b) >= 3 and any(s["a"]["k"] == "Commit" for s in b)), behs[0])
     rep.coverage = {
         "states": states, "transitions": trans,
-        "traces_validated_against_impl": len(behs) + len(recs) + len(crash["runs"]) + len(scen_traces) + 1,
+        "traces_validated_against_impl": len(behs) + chain_n + len(recs) + len(crash["runs"]) + len(scen_traces) + 1,
         "samples": [{"behaviour": sample_b},
                     {"mt_trace_head": vlib.read_ndjson(recs[0]["trace"])[:6] if recs else []},
                     {"crash_runs": crash["runs"][:3]}],
@@ -791,6 +1057,7 @@ def run(tier, replay):
         "behaviours_replayed": len(behs), "behaviours_systematic": nsys, "behaviours_random_walks": nsim,
         "behaviours_reaching_depth_3": deep,
         "replay_read_comparisons": checks, "replayed_action_counts": replayed_actions,
+        "chainstore_behaviours_replayed": chain_n, "chainstore_read_comparisons": chain_checks, "chainstore_action_counts": chain_actions,
         "mt_runs": [{k: r[k] for k in ("events", "batches", "commits", "concurrent_observations", "map_size", "nk",
                                        "data_file_bytes", "max_batch_growth_pages", "wall_ms", "defdb",
                                        "burst_reader_threads", "burst_reads", "stalls_recovered")} for r in recs],
@@ -805,9 +1072,13 @@ def run(tier, replay):
         "own_iterator_squeezed_batch": squeeze,
         "batch_larger_than_headroom": bigbatch,
         "restart_scenario": reopen,
+        "rewrite_under_pinned_reader_scenario": rewrite,
+        "iterator_paging_scenario": pages,
+        "production_sizing_scenario": prodsize,
+        "kill_around_enlargement_scenario": crashresize,
         "selftest": st,
         "phase_wall_s": phases,
-        "checker_cmd": "tlc mc/MC_KV (%s); h_kv replay; h_kv record + tlc trace/KVTrace; h_kv crash + tlc trace/KVTrace; h_kv gate; h_kv nested + h_kv inflight + tlc trace/KVTrace; h_kv race; careless model variants: %s"
+        "checker_cmd": "tlc mc/MC_KV (%s); h_kv replay; h_kv chainreplay; h_kv record + tlc trace/KVTrace; h_kv crash + tlc trace/KVTrace; h_kv gate; h_kv nested + h_kv inflight + tlc trace/KVTrace; h_kv race; h_kv rewrite; h_kv pages; h_kv prodsize; h_kv crashresize; careless model variants: %s"
                        % (",".join(cfgs + ["MC_KV_live"]), ",".join(c for c, _ in CARELESS)),
     }
     rep.assumptions = [
@@ -823,6 +1094,12 @@ def run(tier, replay):
         "thread's own iterator on a > 90 % full map fits into what is left); without them the model violates it and both "
         "counterexamples reproduce on the unchanged Store (findings kv:batch:larger_than_headroom:mapfull, "
         "kv:resize:own_iterator:squeezed_batch:mapfull)",
+        "whether an enlargement is due is judged as KV!NeedsResize does - by the last page of the data file (file length / 4096 - 1, never "
+        "more than LMDB's last page number) against the mapped size (/proc/self/maps); the model counts freed pages as never reused, which "
+        "is exact while a reader pins the snapshot they belonged to (scenario W) and pessimistic otherwise",
+        "iterator paging is bound by one directed scenario with the code's page size (10 000 keys; 30 011 keys, 2 x 6 + 3 walks); the model "
+        "turns pages with Page = 1 / 2 keys (every MC configuration) and 7 keys (trace validation)",
+        "two Store handles on one environment are exercised in scenarios G, K and W only (reader on the second handle, writer on the first)",
         "reads in flight are produced with a Readable that stops between two halves of its value; Store::exists cannot be stopped that way",
         "direction A runs reads in flight and iterators on helper threads (no resize there, so the owning thread has no observable effect); "
         "thread ownership at the gate is bound by the directed scenarios (N), (F), (G) only",
